@@ -30,7 +30,7 @@ def qbytes_mm(activations: torch.Tensor, weights: torch.Tensor, output_scales: t
         mm_dtype = torch.float32
     activations = activations.to(mm_dtype)
     weights = weights.to(mm_dtype)
-    outputs = torch.matmul(activations, weights.t()) * output_scales.t()
+    outputs = torch.matmul(activations, weights.t()) * output_scales.flatten()
     return outputs.to(output_scales.dtype)
 
 
@@ -47,7 +47,7 @@ def qbytes_int_mm(activations: torch.Tensor, weights: torch.Tensor, output_scale
         out_data = out_data.view(output_shape)
     # We must evaluate the output as float32 because the multiplication
     # of the int32 data by the scales might overflow
-    fp32_output = out_data.to(torch.float32) * output_scales.t()
+    fp32_output = out_data.to(torch.float32) * output_scales.flatten()
     return fp32_output.to(output_scales.dtype)
 
 
